@@ -127,6 +127,32 @@ def path_reverse_case(p0, p1, v0, v1, box):
     return fails
 
 
+def calculate_order_case(p0, p1, v0, v1, box):
+    """EngineBase.calculate_order is where the engines apply a frame's velocity flag: with the arrays handed over (what every engine does
+    while it propagates) a velocity-type parameter of a frame flagged as reversed has the opposite sign, a position-type one the same value."""
+    from infretis.classes import orderparameter as OP
+    from infretis.classes.system import System
+    fails = []
+    xyz, vel, bx = np.array([p0, p1], dtype=float), np.array([v0, v1], dtype=float), np.array(box, dtype=float)
+    for name, op, sign in (("Distance", OP.Distance((0, 1), periodic=True), 1), ("Distancevel", OP.Distancevel((0, 1), periodic=True), -1),
+                           ("Velocity", OP.Velocity(1, dim="y"), -1), ("Position", OP.Position((1, 0), periodic=False), 1)):
+        eng = _stub_engine()
+        eng.order_function = op
+        out = []
+        for flag in (False, True):
+            s = System()
+            s.vel_rev = flag
+            try:
+                out.append(list(eng.calculate_order(s, xyz=xyz.copy(), vel=vel.copy(), box=bx.copy())))
+            except Exception as exc:  # noqa: BLE001
+                fails.append((f"calculate_order:{name}:raise:{type(exc).__name__}", f"calculate_order raised {type(exc).__name__}: {str(exc)[:100]}"))
+                break
+        if len(out) == 2 and any(abs(b - sign * a) > TOL for a, b in zip(out[0], out[1])):
+            fails.append((f"calculate_order:{name}:vel_rev", f"{name} of a frame flagged as reversed is {out[1]}, of the unflagged frame {out[0]} "
+                                                             f"({'opposite sign' if sign < 0 else 'the same value'} expected)"))
+    return fails
+
+
 def eval_case(st):
     from infretis.classes import orderparameter as OP
     fails = []
@@ -176,6 +202,7 @@ def eval_case(st):
             fails.append(("Velocity:reverse", "a velocity-type parameter did not change sign under velocity reversal"))
     if kind == "reverse":
         fails += path_reverse_case(p0, p1, v0, v1, box)
+        fails += calculate_order_case(p0, p1, v0, v1, box)
     # angle-type parameters: relation between the values before and after the same action
     rnd = random.Random(hash((tuple(p0), tuple(p1), tuple(box), json.dumps(act, sort_keys=True))) & 0xffffff)
     L = 31.0
